@@ -67,14 +67,13 @@ Theorem C03_write_complete :
 Proof. exact write_complete. Qed.
 Print Assumptions C03_write_complete.
 
-(* (6) send(): what reaches the transport is always a prefix of the payload, free of forbidden
-       bytes, and it is the whole payload unless IllegalDataException is raised *)
+(* (6) send(): either the whole payload reaches the transport (and it is free of forbidden bytes), or
+       IllegalDataException is raised and NOTHING has been sent -- the sent data is a prefix of the payload *)
 Theorem C03_send_prefix :
   forall s c r c',
   slow_ok c -> send s false None c = (r, c') ->
-  exists sent rest,
-    s = sent ++ rest /\ wr (io c') = wr (io c) ++ sent /\ any_in (blacklist c) sent = false /\
-    ((r = Ret tt /\ rest = []) \/ (r = EIllegal /\ any_in (blacklist c) (firstn SEND_SLICE rest) = true)).
+  (r = Ret tt /\ wr (io c') = wr (io c) ++ s /\ any_in (blacklist c) s = false) \/
+  (r = EIllegal /\ c' = c /\ any_in (blacklist c) s = true).
 Proof. exact send_prefix. Qed.
 Print Assumptions C03_send_prefix.
 
